@@ -9,6 +9,7 @@ counter (T1) and the default collapser table (T3).  xarray semantics are not dec
 import ast
 from ..core import AnalysisError, norm, dotted, calls_in, walk_no_nested, parent, enclosing_stmt, const_value
 from ..flow import Flow
+from ..cfg import stmt_before
 
 COL = "typhon/collocations/collocator.py"
 COM = "typhon/collocations/common.py"
@@ -226,7 +227,7 @@ def rule_binner(ctx):
         okf = True
     ordered = True
     if fill is not None and scatter is not None:
-        ordered = fill.lineno < scatter.lineno
+        ordered = stmt_before(f.node, fill, scatter)
     ctx.ob("collapse.nan_fill", okf and ordered, "fill: %s" % (norm(fill) if fill else (norm(bdef.value) if bdef else None)),
            "the bin matrix is pre-filled with NaN before the partner values are scattered into it", node=fill or f.node, func=f)
     oks = False
